@@ -394,8 +394,74 @@ fn dominance(ctx: &Ctx, script: &str, diverting_action: bool) -> (u64, u64) {
     (runs, entered)
 }
 
+// (e) a failing redirection on a command without a name (XCU 2.9.1: "the command shall
+// immediately fail with an exit status greater than zero"): sets `$?` without errexit, aborts
+// under errexit (outside the exempt contexts), whatever assignments and command substitutions
+// the command also has
+fn nameless_redirection_errors(ctx: &Ctx) -> u64 {
+    let mut n = 0;
+    let cmds = [
+        "</nonexistent/x",
+        "v=1 </nonexistent/x",
+        "v=$(s 0) </nonexistent/x",
+        "v=$(s 3) </nonexistent/x",
+        "</nonexistent/x v=$(s 0)",
+        ">/bin/true/x",
+        "v=$(s 0) w=$(s 0) 2>/bin/true/x",
+        "v=1 </nonexistent/x >/tmp/created",
+    ];
+    for cmd in cmds {
+        for (ctxname, pre, post, exempt) in [
+            ("top", "", "", false),
+            ("group", "{ ", "; }", false),
+            ("function", "f() { ", "; }; f", false),
+            ("if-condition", "if ", "; then p t; else p e; fi", true),
+            ("and-or-left", "", " || p o", true),
+            ("negated", "! ", "", true),
+        ] {
+            for errexit in [false, true] {
+                let script = format!("trap 'p x' EXIT\n{}{pre}{cmd}{post}\np a\n", if errexit { "set -e\n" } else { "" });
+                let r = run_once(&Setup::script(&script), &Default::default());
+                n += 1;
+                let tr = r.all_trace();
+                let st = |m: &str| -> Option<i32> { tr.iter().find_map(|t| t.strip_prefix(&format!("{m}:")).and_then(|v| v.parse().ok())) };
+                let exits = tr.iter().filter(|t| t.starts_with("x:")).count();
+                let problem = if r.panic.is_some() {
+                    Some(("panic", format!("{:?}", r.panic)))
+                } else if exits != 1 {
+                    Some(("exit-trap-count", format!("the EXIT trap ran {exits} times")))
+                } else if errexit && !exempt {
+                    // aborts: nothing after the failing command runs, the exit status is non-zero
+                    if st("a").is_some() {
+                        Some(("ran-past-abort", "the command after the failing one ran although errexit is on".to_string()))
+                    } else if !matches!(r.end, End::Exited(s) if s != 0) {
+                        Some(("status", format!("the shell ended {:?}, expected a non-zero exit status", r.end)))
+                    } else {
+                        None
+                    }
+                } else {
+                    // continues; `$?` after the command is non-zero (zero after `!`, and the else / `||` branch runs)
+                    match ctxname {
+                        "if-condition" => (st("e").is_none() || st("t").is_some()).then(|| ("redirection-error-status", "a failing redirection in an `if` condition did not select the else branch".to_string())),
+                        "and-or-left" => st("o").is_none().then(|| ("redirection-error-status", "`cmd || p o`: the right-hand side did not run after a failing redirection".to_string())),
+                        "negated" => (st("a") != Some(0)).then(|| ("redirection-error-status", format!("`! cmd` left $? = {:?}, expected 0", st("a")))),
+                        _ => (!st("a").is_some_and(|v| v != 0)).then(|| ("redirection-error-status", format!("$? after the command is {:?}, expected non-zero", st("a")))),
+                    }
+                };
+                if let Some((key, what)) = problem {
+                    let masked = cmd.contains("$(s 0)");
+                    let key = if key == "redirection-error-status" || key == "ran-past-abort" { if masked { format!("{key}-masked-by-command-substitution") } else { key.to_string() } } else { key.to_string() };
+                    ctx.violation(&format!("c10:nameless:{key}"), &format!("`{pre}{cmd}{post}` (errexit {errexit}): {what}; markers {tr:?}; stderr {:?}", r.stderr.lines().next()), json!({"script": script}));
+                }
+            }
+        }
+    }
+    n
+}
+
 pub fn run(tier: Tier) -> i32 {
     let ctx = Ctx::new("C10", "exploration", tier);
+    let nameless = nameless_redirection_errors(&ctx);
     let dscripts = dominance_scripts();
     let d_runs = AtomicU64::new(0);
     let d_entered = AtomicU64::new(0);
@@ -449,7 +515,8 @@ pub fn run(tier: Tier) -> i32 {
         samples.offer(|| json!({"script": script, "expected_traces": format!("{:?}", exp.traces), "status": refsh::status_str(exp.status)}));
     });
     let cov = json!({
-        "evaluations": evals.load(Relaxed) + d_runs.load(Relaxed),
+        "evaluations": evals.load(Relaxed) + d_runs.load(Relaxed) + nameless,
+        "part_e_nameless_commands_with_failing_redirections": nameless,
         "distinct_nontrivial": nontrivial.load(Relaxed) + d_entered.load(Relaxed),
         "rule": format!("every C02 program of at most {} nodes, (a) as is with errexit off/on (+ job control on when it contains a pipeline, + a syntax error on a later line for small ones), (b) with each of 13 failure categories (not found; redirection error on regular built-in / function / compound / special built-in / command-wrapped special; read-only assignment prefixed to special / regular / nothing; ${{u?}}; unset under nounset; special built-in usage error, plain and via `command`) planted at every probe position, errexit off/on, (c) errexit toggled mid-script; (c2) 16 environments (subshell, substitution, pipeline element, nested subshell, group in subshell, async list, group) containing a failing non-final command x 10 exempt contexts (if/elif/while/until conditions, and-or operands, negation, functions called from them) and outside any, errexit on/off; every script has an EXIT trap and a final probe. Oracle: refsh + the documented consequences of shell errors; statuses the manual only calls non-zero are compared as non-zero. Non-trivial = a failure is planted or the reference run aborts before the final probe; distinct by script.", tier.pick(3, 4)),
         "samples": samples.take(),
